@@ -373,9 +373,7 @@ def case_planner(ctx, inp):
         if sum(got) != sum(cs) or any(c <= 0 for c in got):
             ctx.fail("_balance_chunksizes: result does not add up / has an empty chunk", observed=got)
         if got != cs:
-            ctx.branch("balance:changed")
-            if max(got) - min(got) > max(cs) - min(cs):
-                ctx.fail("_balance_chunksizes: result is less balanced than the input", observed=got)
+            ctx.branch("balance:changed")  # how well it balances is a heuristic, not part of the statement
         else:
             ctx.branch("balance:kept")
     elif op == "plan":
